@@ -16,7 +16,10 @@
 //! Observation per Q: `<status|none> <enqueued> why`
 //!   enqueued = '-' or the comma separated list of what arrived on the queue, each resolved
 //!   the way the unit's File::open would resolve it, relative to R ('.' for R itself),
-//!   `OUT:<abs>` when outside R, `UNRES:<path>` when it does not resolve.
+//!   `OUT:<abs>` when outside R, `UNRES:<path>` when it does not resolve; each followed by
+//!   `:c` when the enqueued path TEXT is byte for byte its own canonicalisation, else `:n`
+//!   (the unit resolves the text again later: a non-canonical text names a location that can
+//!   move between the endpoint's check and the unit's use).
 use rotonda::verif::mrt::hyper::{Body, Request};
 use rotonda::verif::mrt::{new_processor, ProcessRequest};
 use std::collections::HashMap;
@@ -109,12 +112,18 @@ thread_local! {
 
 fn show_enqueued(p: &Path, root: &Path) -> String {
     match std::fs::canonicalize(p) {
-        Err(_) => format!("UNRES:{}", enc(p.as_os_str().as_bytes())),
-        Ok(c) => match c.strip_prefix(root) {
-            Ok(rel) if rel.as_os_str().is_empty() => ".".to_string(),
-            Ok(rel) => enc(rel.as_os_str().as_bytes()),
-            Err(_) => format!("OUT:{}", enc(c.as_os_str().as_bytes())),
-        },
+        Err(_) => format!("UNRES:{}:n", enc(p.as_os_str().as_bytes())),
+        Ok(c) => {
+            // is the TEXT that was enqueued already canonical (byte for byte its own
+            // canonicalisation: no symlink, '.', '..', doubled or trailing '/' in it)?
+            let flag = if c.as_os_str().as_bytes() == p.as_os_str().as_bytes() { "c" } else { "n" };
+            let loc = match c.strip_prefix(root) {
+                Ok(rel) if rel.as_os_str().is_empty() => ".".to_string(),
+                Ok(rel) => enc(rel.as_os_str().as_bytes()),
+                Err(_) => format!("OUT:{}", enc(c.as_os_str().as_bytes())),
+            };
+            format!("{loc}:{flag}")
+        }
     }
 }
 
